@@ -263,8 +263,10 @@ def arm_guard(nbytes):
 def snapshot(proto):
     rt = tuple(sorted((p.node_id, p.address, p.udp_port) for p in proto.routing_table.get_peers()))
     bk = tuple((b.range_min, b.range_max) for b in proto.routing_table.buckets)
-    ds = tuple(sorted((k, tuple(sorted((p.node_id or b'', p.address, p.tcp_port or 0) for p, _ in v)))
-                      for k, v in proto.data_store._data_store.items()))
+    # through the store's public interface only (its internal layout is not part of any statement)
+    ds = tuple(sorted((k, tuple(sorted((p.node_id or b'', p.address, p.tcp_port or 0)
+                                       for p in proto.data_store.filter_expired_peers(k))))
+                      for k in list(proto.data_store.keys())))
     qa = tuple(sorted((p.node_id or b'', p.address, p.udp_port or 0) for p in proto._to_add))
     qr = tuple(sorted((p.node_id or b'', p.address, p.udp_port or 0) for p in proto._to_remove))
     pq = tuple(sorted((p.node_id or b'', p.address, p.udp_port or 0) for p in proto.ping_queue._pending_contacts))
